@@ -37,7 +37,27 @@ def run(tier="quick", seed=0):
     def check(targets, tag, universe=None):
         nonlocal ev, distinct
         ev += 1
-        pairs = list(compress_flood_fill_regions(targets))
+        # the FORM of the request rotates: chip coordinates as python ints / numpy 32-bit / numpy 64-bit integers (as they come out
+        # of array code), core collections as sets / lists / one-shot iterators / generators
+        form = ev % 12
+        given = targets
+        if form in (3, 7, 11):
+            import numpy as np
+            it = (np.int32, np.int64, np.int32)[form // 4]
+            given = dict(((it(x), it(y)), cs) for (x, y), cs in targets.items())
+        if form % 4 == 1:
+            given = dict((k, sorted(cs)) for k, cs in given.items())
+        elif form % 4 == 2:
+            given = dict((k, iter(sorted(cs))) for k, cs in given.items())
+        elif form in (4, 8):
+            given = dict((k, (c for c in sorted(cs))) for k, cs in given.items())
+        try:
+            pairs = [(int(r), int(m)) for r, m in compress_flood_fill_regions(given)]
+        except Exception as e:      # noqa
+            if len(viol) < 6:
+                viol.append({"id": "%s_%d" % (tag, ev), "clause": "region_selection", "why": "compress_flood_fill_regions raised %s: %s (request form %d)" % (type(e).__name__, e, form),
+                             "inputs": {"targets": {"%d,%d" % k: sorted(v) for k, v in list(targets.items())[:40]}, "form": form}})
+            return
         want = {(x, y, p) for (x, y), cores in targets.items() for p in cores}
         chips = set(targets)
         if universe:
@@ -213,6 +233,6 @@ def run(tier="quick", seed=0):
                                  "inputs": {"batches_of_cores_added": history}})
             distinct += 1
     return {"name": "c12_regions", "evaluations": ev, "distinct_nontrivial": distinct,
-            "rule": "compress_flood_fill_regions decoded by an independent reading of the region word: all subsets of 2x2 chips x cores {1,17} at six positions (incl. level boundaries); full, one-short, full+sparse-second-core and full+outside blocks of 1, 4, 16, 64 chips square for three core pairs at two positions; seeded mixes of neighbouring chips with different core sets; checks nothing missing, nothing extra (neighbouring chips probed), nothing twice, strictly increasing (region<<32|mask), well formed; get_region_for_chip for every chip x level against the documented word; the core-select packets the real flood_fill_aplx sends (recording transport) for two/three-chip targets with cores 16/17 and seeded mixes (all fills on ONE controller): the pairs produced, in increasing order; one RegionCoreTree used over time (2-4 batches of add_core, the pairs read twice after every batch): exactly the cores added so far",
+            "rule": "compress_flood_fill_regions (the request in rotating forms: coordinates as python / numpy 32- and 64-bit integers, cores as sets / lists / one-shot iterators / generators) decoded by an independent reading of the region word: all subsets of 2x2 chips x cores {1,17} at six positions (incl. level boundaries); full, one-short, full+sparse-second-core and full+outside blocks of 1, 4, 16, 64 chips square for three core pairs at two positions; seeded mixes of neighbouring chips with different core sets; checks nothing missing, nothing extra (neighbouring chips probed), nothing twice, strictly increasing (region<<32|mask), well formed; get_region_for_chip for every chip x level against the documented word; the core-select packets the real flood_fill_aplx sends (recording transport) for two/three-chip targets with cores 16/17 and seeded mixes (all fills on ONE controller): the pairs produced, in increasing order; one RegionCoreTree used over time (2-4 batches of add_core, the pairs read twice after every batch): exactly the cores added so far",
             "bound": "structured families listed in the rule; %d seeded mixes" % (300 if tier == "quick" else 3000), "exhaustive": False,
             "label": "bounded", "samples": samples, "violations": viol, "seconds": round(time.time() - t0, 2)}
